@@ -329,7 +329,7 @@ func c02build(o *c02op) *c02prog {
 	boxed := strings.HasPrefix(o.place, "gb")
 	ir := c02interp(boxed)
 	T, U := o.k.name, o.yk.name
-	if o.hasC {
+	if o.hasC || o.rhs == "-" {
 		U = "int" // the variable Y is not used
 	}
 	rhsSrc := ""
@@ -491,7 +491,7 @@ func c02panicClass(pt string) string {
 func c02execSt(f []string) Result {
 	o, err := c02parse(f)
 	if err != nil {
-		return Result{Out: "bad-op " + err.Error(), Tags: []string{"bad-op"}}
+		return Result{Out: "bad-op", Tags: []string{"bad-op", "bad-op:" + err.Error()}}
 	}
 	tags := []string{"op:" + o.op, "kind:" + o.k.name, "place:" + o.place, "rhs:" + o.rhs}
 	key := fmt.Sprintf("%s-%s-%s-%s", o.op, o.k.name, o.place, o.rhs)
@@ -585,7 +585,7 @@ func c02execSt(f []string) Result {
 func c02exec(line string) Result {
 	f := strings.Fields(line)
 	if len(f) == 0 {
-		return Result{Out: "bad-op empty", Tags: []string{"bad-op"}}
+		return Result{Out: "bad-op", Tags: []string{"bad-op"}}
 	}
 	switch f[0] {
 	case "st":
@@ -593,7 +593,7 @@ func c02exec(line string) Result {
 	case "multi", "seq":
 		return c02execMulti(line)
 	}
-	return Result{Out: "bad-op class", Tags: []string{"bad-op"}}
+	return Result{Out: "bad-op", Tags: []string{"bad-op"}}
 }
 
 // ---- generator ----
@@ -695,7 +695,7 @@ var c02countKinds = []string{"uint", "uint8", "uint16", "uint32", "uint64", "uin
 
 func c02gen1(r *rand.Rand, tier string, emit func(string)) {
 	g := &c02gen{r: r, tier: tier, quick: tier == "quick", emit: emit}
-	nx, ny := 10, 8
+	nx, ny := 6, 5
 	if !g.quick {
 		nx, ny = 60, 40
 	}
@@ -714,6 +714,7 @@ func c02gen1(r *rand.Rand, tier string, emit func(string)) {
 						if place == "g" || place == "a" {
 							g.line(op, k, place, "v", bkinds["uint"], "-", g.pairs("ADD", k, bkinds["uint"], 1, 1)[:2])
 							g.line(op, k, place, "c", bkinds["uint64"], "1", g.xvals(k, 1)[:1])
+							g.line(op, k, place, "c", bkinds["uint64"], "0", g.xvals(k, 1)[:1])
 						}
 						continue
 					}
@@ -773,9 +774,16 @@ func c02gen1(r *rand.Rand, tier string, emit func(string)) {
 					g.r.Shuffle(len(rest), func(i, j int) { rest[i], rest[j] = rest[j], rest[i] })
 					cs = append(append([]bval{}, keep...), rest[:4]...)
 				}
-				for _, c := range cs {
+				for ci, c := range cs {
 					if k.lit(c) == "" {
 						continue
+					}
+					if g.quick && ci >= 3 {
+						// quick: the shortcut-prone constants on every place, the others on a rotating third
+						g.rot++
+						if g.rot%3 != 0 {
+							continue
+						}
 					}
 					g.line(op, k, place, "c", k, k.encIn(c), g.xvals(k, nx))
 				}
